@@ -145,22 +145,41 @@ func sendBodyEdges(g *cfgx.Graph, sendNode *cfgx.Node, send *ast.SendStmt) []*cf
 	return out
 }
 
+// subnetSlotFns: the two Syncer methods that update the per-subnet in-flight
+// table: the one reporting a bool takes a slot, the one without results gives it back.
 func subnetSlotFns(c *Ctx) (acquire, release *types.Func) {
 	fld := c.P.Field("syncer", "Syncer", "inflightSubnet")
 	for _, f := range c.P.MethodsOf("syncer", "Syncer") {
+		writes := false
 		for _, w := range f.WritesIn(f.Body, false) {
 			if ix, ok := ast.Unparen(w.LHS).(*ast.IndexExpr); ok && f.FieldOf(ix.X) == fld {
-				switch w.Tok {
-				case token.INC:
-					acquire = f.Obj
-				case token.DEC:
-					release = f.Obj
-				}
+				writes = true
 			}
+		}
+		for _, call := range f.Calls(false) {
+			if id, ok := call.Expr.Fun.(*ast.Ident); ok && id.Name == "delete" && len(call.Expr.Args) == 2 && f.FieldOf(call.Expr.Args[0]) == fld {
+				writes = true
+			}
+		}
+		if !writes {
+			continue
+		}
+		res := f.Obj.Type().(*types.Signature).Results()
+		switch {
+		case res.Len() == 1 && isBasicKind(types.Bool)(res.At(0).Type()):
+			if acquire != nil {
+				ir.Fail("more than one method takes a subnet slot")
+			}
+			acquire = f.Obj
+		case res.Len() == 0:
+			if release != nil {
+				ir.Fail("more than one method returns a subnet slot")
+			}
+			release = f.Obj
 		}
 	}
 	if acquire == nil || release == nil {
-		ir.Fail("subnet slot acquire/release methods not found (inc/dec of Syncer.inflightSubnet)")
+		ir.Fail("subnet slot acquire/release methods not found (writers of Syncer.inflightSubnet)")
 	}
 	return
 }
@@ -289,13 +308,19 @@ func c18r4(c *Ctx) {
 	mu := c.P.FieldOr("threadgroup", "ThreadGroup", "mu", isMutex)
 	wg := c.P.FieldOr("threadgroup", "ThreadGroup", "wg", func(t types.Type) bool { return ir.IsNamed(t, "sync", "WaitGroup") })
 	closed := c.P.FieldOr("threadgroup", "ThreadGroup", "closed", func(t types.Type) bool { _, ok := t.Underlying().(*types.Chan); return ok })
-	methods := c.P.MethodsOf("threadgroup", "ThreadGroup")
-	ls := NewLockset(c.P, mu, methods)
-	// every wg.Add / wg.Wait / close(closed) in the whole repository
-	for _, f := range c.P.Funcs {
-		if f.Pkg.PkgPath != ir.PkgPath("threadgroup") {
-			continue
-		}
+	// the package's functions with helpers (such as an isStopped() test) expanded
+	vs := c.P.Views("threadgroup", ir.ExpandOpt{Key: "all"})
+	var methods, all []*ir.Func
+	for _, f := range c.P.MethodsOf("threadgroup", "ThreadGroup") {
+		methods = append(methods, vs.Of(f))
+	}
+	ls := NewLocksetV(c.P, mu, methods, vs.Of)
+	for _, f := range vs.Roots {
+		all = append(all, f)
+		all = append(all, f.Lits...)
+	}
+	// every wg.Add / wg.Wait / close(closed) in the package
+	for _, f := range all {
 		g := f.Graph()
 		for _, n := range g.Nodes {
 			if n.AST == nil {
@@ -326,14 +351,14 @@ func c18r4(c *Ctx) {
 					c.Visit(1)
 					ob := c.Ob(f, "close-once-under-mu", call.Pos())
 					held := ls.At(f, n) == lsHeld
-					notClosed := !reachableFromClosedCase(f, n, closed) && inSelectWithClosedCase(f, n, closed)
+					notClosed := !reachableFromClosedCase(f, n, closed) && onlyViaOpenCase(f, n, closed)
 					ob.Check(held && notClosed, nil, "close of the closed channel at %s must run under the mutex (%v) on the default branch of a select that tests it (%v): a second Stop would panic", c.P.Pos(call.Pos()), held, notClosed)
 				}
 			}
 		}
 	}
 	// Add() returns an error on the closed branch
-	addF := c.P.Fn("threadgroup", "ThreadGroup", "Add")
+	addF := vs.Of(c.P.Fn("threadgroup", "ThreadGroup", "Add"))
 	ob := c.Ob(addF, "rejects-after-stop", addF.Body.Pos())
 	good := false
 	for _, n := range addF.Graph().Nodes {
@@ -379,21 +404,58 @@ func reachableFromClosedCase(f *ir.Func, n *cfgx.Node, closed *types.Var) bool {
 	return false
 }
 
-func inSelectWithClosedCase(f *ir.Func, n *cfgx.Node, closed *types.Var) bool {
-	ok := false
+// onlyViaOpenCase: node n is reached only through a case body, other than the
+// `<-closed` case, of a select statement that has a `<-closed` case — i.e. the
+// channel was tested and found open on every path to n.
+func onlyViaOpenCase(f *ir.Func, n *cfgx.Node, closed *types.Var) bool {
+	g := f.Graph()
+	withClosed := map[*ast.SelectStmt]bool{}
 	ir.Walk(f.Body, false, func(x ast.Node) {
-		ss, isSel := x.(*ast.SelectStmt)
-		if !isSel || n.AST == nil || !containsNode(ss, n.AST) {
+		ss, ok := x.(*ast.SelectStmt)
+		if !ok {
 			return
 		}
 		for _, cl := range ss.Body.List {
-			cc := cl.(*ast.CommClause)
-			if cc.Comm != nil && recvFieldComm(f, cc, closed) {
-				ok = true
+			if cc := cl.(*ast.CommClause); cc.Comm != nil && recvFieldComm(f, cc, closed) {
+				withClosed[ss] = true
 			}
 		}
 	})
-	return ok
+	open := map[*cfgx.Node]bool{}
+	for _, m := range g.Nodes {
+		if m.Block == nil {
+			continue
+		}
+		cc, ok := m.Block.Stmt.(*ast.CommClause)
+		if !ok {
+			continue
+		}
+		isClosedCase := cc.Comm != nil && recvFieldComm(f, cc, closed)
+		switch m.Block.Kind.String() {
+		case "SelectCaseBody": // another case was selected
+			if isClosedCase {
+				continue
+			}
+		case "SelectAfterCase": // the `<-closed` case was not selected (default / later cases)
+			if !isClosedCase {
+				continue
+			}
+		default:
+			continue
+		}
+		for ss := range withClosed {
+			for _, cl := range ss.Body.List {
+				if cl == ast.Stmt(cc) {
+					open[m] = true
+				}
+			}
+		}
+	}
+	if len(open) == 0 {
+		return false
+	}
+	_, bypass := g.Reach([]*cfgx.Visit{cfgx.StartAt(g.Entry, 0)}, func(m *cfgx.Node) bool { return open[m] })[n]
+	return !bypass
 }
 
 func c18r5(c *Ctx) {
@@ -437,7 +499,10 @@ func c18r5(c *Ctx) {
 
 func c18r6(c *Ctx) {
 	mu := c.P.Field("syncer", "Syncer", "mu")
-	peers := c.P.FieldOr("syncer", "Syncer", "peers", func(t types.Type) bool { mt, ok := t.Underlying().(*types.Map); return ok && ir.IsNamed(mt.Elem(), ir.PkgPath("syncer"), "Peer") })
+	peers := c.P.FieldOr("syncer", "Syncer", "peers", func(t types.Type) bool {
+		mt, ok := t.Underlying().(*types.Map)
+		return ok && ir.IsNamed(mt.Elem(), ir.PkgPath("syncer"), "Peer")
+	})
 	methods := c.P.MethodsOf("syncer", "Syncer")
 	ls := NewLockset(c.P, mu, methods)
 	n := 0
